@@ -1,5 +1,5 @@
 import Juniper.Driver.Basic
-import Juniper.Model.BTree
+import Juniper.Model.BTreeCost
 /-! Driver for the B-tree model (C01, C02, C03): `driver tree`.
 
 Protocol (one output line per input line; keys/values decimal ints):
@@ -89,8 +89,8 @@ def step (s : St) (toks : List String) : St × String :=
   | ["len"] => (s, toString (len s.t))
   | ["first"] => (s, showEntry s.isSet (first s.t))
   | ["last"] => (s, showEntry s.isSet (last s.t))
-  | ["cost", k] => (s, toString (lookupCost s.cmp (intOr k) s.t.root))
-  | ["costget", k] => (s, toString (lookupCost s.cmp (intOr k) s.t.root))
+  | ["cost", k] => (s, toString (containsCost s.cmp (intOr k) s.t.root))
+  | ["costget", k] => (s, toString (getCost s.cmp (intOr k) s.t.root))
   | ["alias"] => (s, "ok")
   | ["shape"] => (s, showShape s.t)
   | [op, lo, hi] =>
